@@ -55,9 +55,9 @@ pub fn base_history(r: &mut Sm, idx: usize) -> History {
 pub fn op_alphabet(kind: PKind, r: &mut Sm) -> Vec<Op> {
     let n = 5 + r.below(120) as u64;
     if kind == PKind::Prm {
-        vec![Op::Setup(0), Op::Setup(1), Op::Construct, Op::SetPd(1), Op::Solve(10), Op::SetupMixed(0, 1), Op::Construct, Op::Solve(10)]
+        vec![Op::Setup(0), Op::Setup(1), Op::Construct, Op::SetPd(1), Op::Solve(10), Op::SetupMixed(0, 1), Op::Construct, Op::Solve(10), Op::ScaleParams(0.5)]
     } else {
-        vec![Op::Setup(0), Op::Setup(1), Op::Solve(n), Op::SetupMixed(0, 1), Op::Solve(n)]
+        vec![Op::Setup(0), Op::Setup(1), Op::Solve(n), Op::SetupMixed(0, 1), Op::Solve(n), Op::ScaleParams(0.5)]
     }
 }
 
